@@ -34,6 +34,7 @@ type Img struct {
 	OX, OY  int    // origin offset for sub/minoff
 	PadR    int    // extra pixels right (sub: parent wider; stride: padding)
 	PadB    int    // extra rows below (sub)
+	PadBytes int   // stride placement: extra bytes per row beyond whole pixels (strides that are not a multiple of 4 are legal)
 	Garbage uint64 // seed for bytes outside the picture
 	Content string // class label (informational)
 	Alpha   string // class label (informational)
@@ -100,7 +101,7 @@ func (s *Img) Build() image.Image {
 			stride = pw * 4
 		case "stride":
 			full = rect
-			stride = (s.W + s.PadR) * 4
+			stride = (s.W+s.PadR)*4 + s.PadBytes
 		default:
 			full = rect
 			stride = s.W * 4
@@ -348,6 +349,9 @@ func DrawImg(t *rapid.T, cfg ImgCfg) *Img {
 	if s.Place == "sub" || s.Place == "stride" {
 		s.PadR = rapid.IntRange(0, 5).Draw(t, "padR")
 		s.PadB = rapid.IntRange(0, 5).Draw(t, "padB")
+	}
+	if s.Place == "stride" {
+		s.PadBytes = rapid.SampledFrom([]int{0, 0, 0, 1, 2, 3, 5, 6, 13}).Draw(t, "padBytes")
 	}
 	s.Garbage = rapid.Uint64().Draw(t, "garbage")
 	s.Content = rapid.SampledFrom(contentClasses).Draw(t, "content")
